@@ -62,6 +62,7 @@ structure Cfg where
 structure St where
   cursor : Nat
   emitting : Nat
+  closes : Nat              -- ghost: number of calls of P.Close
   pOpened : Bool
   pClosed : Bool
   badWindow : Bool
@@ -90,7 +91,7 @@ inductive Label
   deriving DecidableEq, Repr
 
 def init (cfg : Cfg) : St :=
-  { cursor := 0, emitting := 0, pOpened := false, pClosed := false, badWindow := false, badOverlap := false,
+  { cursor := 0, emitting := 0, closes := 0, pOpened := false, pClosed := false, badWindow := false, badOverlap := false,
     w := .opening, written := [], prClosed := false, pwClosed := none, ctx0 := false, cCancelled := false,
     sCancelled := false, t := .inCons, reads := 0, errBudget := cfg.e, faulted := false, dropped := false }
 
@@ -125,7 +126,7 @@ def step (cfg : Cfg) (s : St) : Label → Option St
     else none
   | .wCloseP =>
     match s.w with
-    | .closeP ok => some { s with w := .closed ok, pClosed := true, badOverlap := s.badOverlap || decide (0 < s.emitting) }
+    | .closeP ok => some { s with w := .closed ok, pClosed := true, closes := s.closes + 1, badOverlap := s.badOverlap || decide (0 < s.emitting) }
     | _ => none
   | .wClosed =>
     match s.w with
